@@ -1,5 +1,1248 @@
+// T5: lock / field-access tables for the three concurrent structs (DESIGN.md 3.1).
+//
+// For AggregationProcess, CollectingProcess and ExportingProcess this walks every function of
+// the struct's package (type-checked, -tags=verif, files named verif_* skipped) and emits
+// coq/Gen/Locks.v with
+//
+//	<short>_fields    : list field    every field of the struct (index, name, synchronisation object?)
+//	<short>_accesses  : list access   one row per use `x.f` of a data field: function, field,
+//	                                  read/write, mutexes held (RLock = read mode; `defer Unlock`
+//	                                  keeps the lock to the end of the function), atomic?, phase
+//	                                  (Init = in the constructor before the first `go`), the thread
+//	                                  roots that reach the row through the package-local call graph
+//	<short>_methods   : list meth     per function: acquisition sites, whole-body critical sections,
+//	                                  entry lockset, composite flag
+//
+// Everything is keyed on go/types objects (struct fields, *types.Func), never on names; names are
+// carried only for reading. Analysis rules, all of them conservative for lockset_ok:
+//   - locks are tracked through the statement structure; at a join the held set is the
+//     intersection; a loop body must leave the held set unchanged;
+//   - a helper's entry lockset is the intersection over its static call sites (fixpoint); every
+//     exported function, every never-called function, every `go` body, every callback handed to a
+//     non-local API and every escaping method value is a root with an empty entry lockset;
+//   - func literals invoked on the spot are analysed in place; deferred and stored literals are
+//     analysed in place with an EMPTY held set;
+//   - constructs that cannot be classified (TryLock, a lock taken through an interface value, a
+//     local alias or a method value, `defer` of a lock operation in a loop, an unlock of a lock
+//     this function does not hold, goto, a loop that changes the held set) produce a row with
+//     a_known = false, which fails lockset_ok (fail closed).
+//
+// Scope: the fields of the three structs. Heap objects reachable from them are covered only by
+// the -race harnesses.
 package main
 
-import "golang.org/x/tools/go/packages"
+import (
+	"fmt"
+	"go/ast"
+	"go/token"
+	"go/types"
+	"os"
+	"path/filepath"
+	"sort"
+	"strings"
 
-func genLocks(ps []*packages.Package) {}
+	"golang.org/x/tools/go/packages"
+)
+
+type lmode int
+
+const (
+	modeR lmode = 1
+	modeW lmode = 2
+)
+
+type lockset map[int]lmode
+
+func (l lockset) copy() lockset {
+	o := lockset{}
+	for k, v := range l {
+		o[k] = v
+	}
+	return o
+}
+func meet(a, b lockset) lockset {
+	o := lockset{}
+	for k, v := range a {
+		if w, ok := b[k]; ok {
+			if w < v {
+				v = w
+			}
+			o[k] = v
+		}
+	}
+	return o
+}
+func join(a, b lockset) lockset {
+	o := a.copy()
+	for k, v := range b {
+		if o[k] < v {
+			o[k] = v
+		}
+	}
+	return o
+}
+func eqls(a, b lockset) bool {
+	if len(a) != len(b) {
+		return false
+	}
+	for k, v := range a {
+		if b[k] != v {
+			return false
+		}
+	}
+	return true
+}
+
+type nodeKind int
+
+const (
+	kDecl nodeKind = iota
+	kGo
+	kTimer
+	kCallback
+)
+
+type accessRow struct {
+	field  int
+	write  bool
+	atomic bool
+	locks  lockset // local
+	pos    token.Pos
+	known  bool
+	note   string
+}
+
+type callSite struct {
+	callee *types.Func
+	locks  lockset
+	pos    token.Pos
+}
+
+type acqSite struct {
+	mutex int
+	mode  lmode
+	top   bool
+}
+
+type node struct {
+	name     string
+	kind     nodeKind
+	ordinal  int // for go / timer / callback literals
+	fn       *types.Func
+	body     *ast.BlockStmt
+	pos      token.Pos
+	exported bool
+	isCtor   bool
+	spawnPos token.Pos // first go statement (or call that spawns); NoPos if none
+	goPos    []token.Pos
+	accesses []*accessRow
+	calls    []*callSite
+	acq      []acqSite
+	escaped  bool // a method value of this function escapes
+	entry    lockset
+	roots    map[string]string // coq term -> sort key
+}
+
+type target struct {
+	typeName string
+	short    string
+	pkgPath  string
+	pkg      *packages.Package
+	st       *types.Struct
+	named    *types.Named
+	fieldIdx map[*types.Var]int
+	sync     []bool
+	mutex    []bool
+	nodes    []*node
+	byFunc   map[*types.Func]*node
+	nGo      int
+	nTimer   int
+	nCb      int
+}
+
+var lockTargets = []struct{ pkg, typ, short string }{
+	{"github.com/vmware/go-ipfix/pkg/intermediate", "AggregationProcess", "aggregation"},
+	{"github.com/vmware/go-ipfix/pkg/collector", "CollectingProcess", "collector"},
+	{"github.com/vmware/go-ipfix/pkg/exporter", "ExportingProcess", "exporter"},
+}
+
+func isSyncType(t types.Type) (isSync, isMutex bool) {
+	for {
+		if p, ok := t.(*types.Pointer); ok {
+			t = p.Elem()
+			continue
+		}
+		break
+	}
+	if _, ok := t.Underlying().(*types.Chan); ok {
+		return true, false
+	}
+	if n, ok := t.(*types.Named); ok && n.Obj().Pkg() != nil {
+		switch n.Obj().Pkg().Path() {
+		case "sync":
+			return true, n.Obj().Name() == "Mutex" || n.Obj().Name() == "RWMutex"
+		case "sync/atomic":
+			return true, false
+		}
+	}
+	return false, false
+}
+
+type frame struct {
+	deferred lockset
+}
+
+type walker struct {
+	t         *target
+	n         *node
+	info      *types.Info
+	fset      *token.FileSet
+	loopDepth int
+	depth     int // statement nesting inside the function body (0 = top level)
+	branch    []lockset
+}
+
+func (w *walker) unknown(pos token.Pos, why string) {
+	w.n.accesses = append(w.n.accesses, &accessRow{field: 0, write: true, locks: lockset{}, pos: pos, known: false, note: why})
+}
+
+// fieldOf: is e (a selector) a use of a field of the target struct?
+func (w *walker) fieldOf(e ast.Expr) (int, bool) {
+	sel, ok := ast.Unparen(e).(*ast.SelectorExpr)
+	if !ok {
+		return 0, false
+	}
+	s := w.info.Selections[sel]
+	if s == nil || s.Kind() != types.FieldVal {
+		return 0, false
+	}
+	v, ok := s.Obj().(*types.Var)
+	if !ok {
+		return 0, false
+	}
+	i, ok := w.t.fieldIdx[v]
+	return i, ok
+}
+
+func (w *walker) access(e ast.Expr, write, atomic bool, st lockset) {
+	i, ok := w.fieldOf(e)
+	if !ok {
+		return
+	}
+	if w.t.sync[i] {
+		return
+	}
+	w.n.accesses = append(w.n.accesses, &accessRow{field: i, write: write, atomic: atomic, locks: st.copy(), pos: e.Pos(), known: true})
+}
+
+// lhs: e is assigned to / mutated. Every target field on the access path is a write.
+func (w *walker) lhs(e ast.Expr, st lockset) {
+	switch x := e.(type) {
+	case *ast.ParenExpr:
+		w.lhs(x.X, st)
+	case *ast.SelectorExpr:
+		if _, ok := w.fieldOf(x); ok {
+			w.access(x, true, false, st)
+			w.expr(x.X, st)
+			return
+		}
+		w.lhs(x.X, st)
+	case *ast.IndexExpr:
+		w.lhs(x.X, st)
+		w.expr(x.Index, st)
+	case *ast.StarExpr:
+		w.lhs(x.X, st)
+	case *ast.SliceExpr:
+		w.lhs(x.X, st)
+	case *ast.Ident:
+	default:
+		w.expr(e, st)
+	}
+}
+
+func (w *walker) localFunc(o types.Object) *types.Func {
+	f, ok := o.(*types.Func)
+	if !ok || f.Pkg() == nil || f.Pkg().Path() != w.t.pkgPath {
+		return nil
+	}
+	if _, ok := w.t.byFunc[f]; !ok {
+		return nil
+	}
+	return f
+}
+
+var lockOps = map[string]bool{"Lock": true, "Unlock": true, "RLock": true, "RUnlock": true, "TryLock": true, "TryRLock": true}
+
+// lockOp: is call a (R)Lock/(R)Unlock/Try* on something of sync mutex / Locker type?
+// returns (is a lock operation, mutex field index or -1 if not a field of the target, name)
+func (w *walker) lockOp(call *ast.CallExpr) (bool, int, string) {
+	sel, ok := ast.Unparen(call.Fun).(*ast.SelectorExpr)
+	if !ok || !lockOps[sel.Sel.Name] {
+		return false, 0, ""
+	}
+	f, ok := w.info.Uses[sel.Sel].(*types.Func)
+	if !ok || f.Pkg() == nil || f.Pkg().Path() != "sync" {
+		return false, 0, ""
+	}
+	if i, ok := w.fieldOf(sel.X); ok && w.t.mutex[i] {
+		return true, i, sel.Sel.Name
+	}
+	// a field of some other struct (another object's mutex) does not concern this table;
+	// anything else (local alias, parameter, interface value) cannot be resolved.
+	if s, ok := ast.Unparen(sel.X).(*ast.SelectorExpr); ok {
+		if ss := w.info.Selections[s]; ss != nil && ss.Kind() == types.FieldVal {
+			return true, -2, sel.Sel.Name
+		}
+	}
+	return true, -1, sel.Sel.Name
+}
+
+func (w *walker) doLockOp(call *ast.CallExpr, idx int, name string, st lockset, fr *frame, deferred bool) {
+	if idx == -2 {
+		return
+	}
+	if idx == -1 {
+		w.unknown(call.Pos(), "lock operation "+name+" on a value that is not a mutex field of the struct")
+		return
+	}
+	switch name {
+	case "TryLock", "TryRLock":
+		w.unknown(call.Pos(), name)
+	case "Lock", "RLock":
+		if deferred {
+			w.unknown(call.Pos(), "deferred "+name)
+			return
+		}
+		m := modeW
+		if name == "RLock" {
+			m = modeR
+		}
+		if _, held := st[idx]; held {
+			w.unknown(call.Pos(), name+" of a mutex already held")
+		}
+		st[idx] = m
+		w.n.acq = append(w.n.acq, acqSite{idx, m, w.depth == 0 && w.loopDepth == 0})
+	case "Unlock", "RUnlock":
+		if deferred {
+			if w.loopDepth > 0 {
+				w.unknown(call.Pos(), "defer "+name+" in a loop")
+				return
+			}
+			fr.deferred[idx] = modeW
+			return
+		}
+		if _, held := st[idx]; !held {
+			w.unknown(call.Pos(), name+" of a mutex not held by this function")
+			return
+		}
+		delete(st, idx)
+	}
+}
+
+func (w *walker) newLitNode(lit *ast.FuncLit, kind nodeKind) *node {
+	n := &node{kind: kind, body: lit.Body, pos: lit.Pos(), entry: lockset{}}
+	base := w.n.name
+	if i := strings.Index(base, "$"); i >= 0 {
+		base = base[:i]
+	}
+	switch kind {
+	case kGo:
+		n.ordinal = w.t.nGo
+		w.t.nGo++
+		n.name = fmt.Sprintf("%s$go%d", base, n.ordinal)
+	case kTimer:
+		n.ordinal = w.t.nTimer
+		w.t.nTimer++
+		n.name = fmt.Sprintf("%s$timer%d", base, n.ordinal)
+	default:
+		n.ordinal = w.t.nCb
+		w.t.nCb++
+		n.name = fmt.Sprintf("%s$callback%d", base, n.ordinal)
+	}
+	w.t.nodes = append(w.t.nodes, n)
+	return n
+}
+
+// inlineLit analyses a func literal's body in place, in its own defer frame.
+func (w *walker) inlineLit(lit *ast.FuncLit, st lockset, outerFr *frame, isDeferred bool) lockset {
+	fr := &frame{deferred: lockset{}}
+	saveLoop, saveBranch := w.loopDepth, w.branch
+	w.loopDepth, w.branch = 0, nil
+	w.depth++
+	if isDeferred {
+		// a deferred literal that unlocks a mutex it did not take is the enclosing function's deferred unlock
+		for _, s := range lit.Body.List {
+			if es, ok := s.(*ast.ExprStmt); ok {
+				if c, ok := es.X.(*ast.CallExpr); ok {
+					if is, idx, name := w.lockOp(c); is && idx >= 0 && (name == "Unlock" || name == "RUnlock") {
+						if _, held := st[idx]; !held {
+							st[idx] = modeW // balanced below by the explicit unlock
+							outerFr.deferred[idx] = modeW
+						}
+					}
+				}
+			}
+		}
+	}
+	out, _ := w.block(lit.Body.List, st, fr)
+	w.depth--
+	w.loopDepth, w.branch = saveLoop, saveBranch
+	for k := range fr.deferred {
+		delete(out, k)
+	}
+	return out
+}
+
+func (w *walker) exprs(es []ast.Expr, st lockset) {
+	for _, e := range es {
+		w.expr(e, st)
+	}
+}
+
+func isAtomicFunc(f *types.Func) bool {
+	return f != nil && f.Pkg() != nil && f.Pkg().Path() == "sync/atomic"
+}
+
+func (w *walker) call(c *ast.CallExpr, st lockset, fr *frame) {
+	// func literal invoked on the spot
+	if lit, ok := ast.Unparen(c.Fun).(*ast.FuncLit); ok {
+		w.exprs(c.Args, st)
+		out := w.inlineLit(lit, st.copy(), fr, false)
+		for k := range st {
+			if _, ok := out[k]; !ok {
+				delete(st, k)
+			}
+		}
+		for k, v := range out {
+			st[k] = v
+		}
+		return
+	}
+	if is, idx, name := w.lockOp(c); is {
+		w.doLockOp(c, idx, name, st, fr, false)
+		return
+	}
+	var calleeObj types.Object
+	switch f := ast.Unparen(c.Fun).(type) {
+	case *ast.Ident:
+		calleeObj = w.info.Uses[f]
+		if b, ok := calleeObj.(*types.Builtin); ok {
+			switch b.Name() {
+			case "delete":
+				if len(c.Args) > 0 {
+					w.lhs(c.Args[0], st)
+					w.exprs(c.Args[1:], st)
+					return
+				}
+			case "close":
+				w.exprs(c.Args, st)
+				return
+			}
+		}
+	case *ast.SelectorExpr:
+		if s := w.info.Selections[f]; s != nil {
+			calleeObj = s.Obj()
+			if s.Kind() == types.MethodVal {
+				// method call x.f.M(): pointer-receiver method on an addressable field value mutates the field
+				if i, ok := w.fieldOf(f.X); ok {
+					fn, _ := calleeObj.(*types.Func)
+					write := false
+					if fn != nil {
+						if sig, ok := fn.Type().(*types.Signature); ok && sig.Recv() != nil {
+							_, ptrRecv := sig.Recv().Type().(*types.Pointer)
+							ft := w.t.st.Field(i).Type()
+							_, fieldPtr := ft.(*types.Pointer)
+							_, fieldIface := ft.Underlying().(*types.Interface)
+							write = ptrRecv && !fieldPtr && !fieldIface
+						}
+					}
+					if write {
+						w.lhs(f.X, st)
+					} else {
+						w.expr(f.X, st)
+					}
+				} else {
+					w.expr(f.X, st)
+				}
+			} else {
+				w.expr(f, st) // call of a func-typed field
+			}
+		} else {
+			calleeObj = w.info.Uses[f.Sel] // package-qualified function
+		}
+	default:
+		w.expr(c.Fun, st)
+	}
+	fn, _ := calleeObj.(*types.Func)
+	if isAtomicFunc(fn) {
+		wr := !strings.HasPrefix(fn.Name(), "Load")
+		for _, a := range c.Args {
+			if u, ok := ast.Unparen(a).(*ast.UnaryExpr); ok && u.Op == token.AND {
+				if _, ok := w.fieldOf(u.X); ok {
+					w.access(u.X, wr, true, st)
+					continue
+				}
+			}
+			w.expr(a, st)
+		}
+		return
+	}
+	local := w.localFunc(calleeObj)
+	if local != nil {
+		w.n.calls = append(w.n.calls, &callSite{callee: local, locks: st.copy(), pos: c.Pos()})
+	}
+	nonLocal := local == nil
+	for _, a := range c.Args {
+		if lit, ok := ast.Unparen(a).(*ast.FuncLit); ok {
+			if nonLocal {
+				kind := kCallback
+				if fn != nil && strings.Contains(fn.Name(), "AfterFunc") {
+					kind = kTimer
+				}
+				ln := w.newLitNode(lit, kind)
+				analyseBody(w.t, ln, w.info, w.fset)
+			} else {
+				w.inlineLit(lit, lockset{}, fr, false)
+			}
+			continue
+		}
+		w.expr(a, st)
+	}
+}
+
+func (w *walker) expr(e ast.Expr, st lockset) {
+	if e == nil {
+		return
+	}
+	switch x := e.(type) {
+	case *ast.CallExpr:
+		w.call(x, st, &frame{deferred: lockset{}})
+	case *ast.FuncLit:
+		// stored / passed literal: same thread, unknown locks -> analysed with nothing held
+		w.inlineLit(x, lockset{}, &frame{deferred: lockset{}}, false)
+	case *ast.SelectorExpr:
+		if s := w.info.Selections[x]; s != nil {
+			switch s.Kind() {
+			case types.FieldVal:
+				if _, ok := w.fieldOf(x); ok {
+					w.access(x, false, false, st)
+				}
+			case types.MethodVal:
+				// a method value that is not called here
+				if f, ok := s.Obj().(*types.Func); ok {
+					if f.Pkg() != nil && f.Pkg().Path() == "sync" && lockOps[f.Name()] {
+						w.unknown(x.Pos(), "method value of a lock operation")
+					} else if lf := w.localFunc(f); lf != nil {
+						w.t.byFunc[lf].escaped = true
+					}
+				}
+			}
+		}
+		w.expr(x.X, st)
+	case *ast.UnaryExpr:
+		if x.Op == token.AND {
+			if _, ok := w.fieldOf(x.X); ok {
+				w.lhs(x.X, st) // address taken: treated as a write
+				return
+			}
+		}
+		w.expr(x.X, st)
+	case *ast.CompositeLit:
+		isTarget := false
+		if tv, ok := w.info.Types[x]; ok {
+			t := tv.Type
+			if p, ok := t.(*types.Pointer); ok {
+				t = p.Elem()
+			}
+			if n, ok := t.(*types.Named); ok && n.Obj() == w.t.named.Obj() {
+				isTarget = true
+			}
+		}
+		for i, el := range x.Elts {
+			if kv, ok := el.(*ast.KeyValueExpr); ok {
+				if isTarget {
+					if id, ok := kv.Key.(*ast.Ident); ok {
+						if v, ok := w.info.Uses[id].(*types.Var); ok {
+							if fi, ok := w.t.fieldIdx[v]; ok && !w.t.sync[fi] {
+								w.n.accesses = append(w.n.accesses, &accessRow{field: fi, write: true, locks: st.copy(), pos: kv.Pos(), known: true})
+							}
+						}
+					}
+				} else {
+					w.expr(kv.Key, st)
+				}
+				w.expr(kv.Value, st)
+				continue
+			}
+			if isTarget && i < w.t.st.NumFields() && !w.t.sync[i] {
+				w.n.accesses = append(w.n.accesses, &accessRow{field: i, write: true, locks: st.copy(), pos: el.Pos(), known: true})
+			}
+			w.expr(el, st)
+		}
+		if isTarget {
+			w.n.isCtor = true
+		}
+	case *ast.ParenExpr:
+		w.expr(x.X, st)
+	case *ast.IndexExpr:
+		w.expr(x.X, st)
+		w.expr(x.Index, st)
+	case *ast.IndexListExpr:
+		w.expr(x.X, st)
+	case *ast.SliceExpr:
+		w.expr(x.X, st)
+		w.expr(x.Low, st)
+		w.expr(x.High, st)
+		w.expr(x.Max, st)
+	case *ast.StarExpr:
+		w.expr(x.X, st)
+	case *ast.BinaryExpr:
+		w.expr(x.X, st)
+		w.expr(x.Y, st)
+	case *ast.KeyValueExpr:
+		w.expr(x.Key, st)
+		w.expr(x.Value, st)
+	case *ast.TypeAssertExpr:
+		w.expr(x.X, st)
+	}
+}
+
+func (w *walker) mergeInto(outs []lockset, st lockset) {
+	// st := meet of outs (if any)
+	if len(outs) == 0 {
+		return
+	}
+	m := outs[0]
+	for _, o := range outs[1:] {
+		m = meet(m, o)
+	}
+	for k := range st {
+		delete(st, k)
+	}
+	for k, v := range m {
+		st[k] = v
+	}
+}
+
+// block walks statements in order, mutating st; returns the state at the fall-through end and
+// whether the end is unreachable (return / branch).
+func (w *walker) block(stmts []ast.Stmt, st lockset, fr *frame) (lockset, bool) {
+	for _, s := range stmts {
+		if w.stmt(s, st, fr) {
+			return st, true
+		}
+	}
+	return st, false
+}
+
+func (w *walker) nested(body []ast.Stmt, st lockset, fr *frame) (lockset, bool) {
+	w.depth++
+	o, t := w.block(body, st, fr)
+	w.depth--
+	return o, t
+}
+
+func (w *walker) loop(body *ast.BlockStmt, st lockset, fr *frame) {
+	entry := st.copy()
+	saved := w.branch
+	w.branch = nil
+	w.loopDepth++
+	out, term := w.nested(body.List, st.copy(), fr)
+	w.loopDepth--
+	states := w.branch
+	w.branch = saved
+	if !term {
+		states = append(states, out)
+	}
+	for _, s := range states {
+		if !eqls(s, entry) {
+			w.unknown(body.Pos(), "the set of held mutexes changes across a loop iteration")
+			break
+		}
+	}
+	states = append(states, entry)
+	w.mergeInto(states, st)
+}
+
+func (w *walker) stmt(s ast.Stmt, st lockset, fr *frame) (terminated bool) {
+	switch x := s.(type) {
+	case nil:
+	case *ast.ExprStmt:
+		if c, ok := x.X.(*ast.CallExpr); ok {
+			w.call(c, st, fr)
+			if id, ok := c.Fun.(*ast.Ident); ok && id.Name == "panic" {
+				if _, ok := w.info.Uses[id].(*types.Builtin); ok {
+					return true
+				}
+			}
+		} else {
+			w.expr(x.X, st)
+		}
+	case *ast.AssignStmt:
+		w.exprs(x.Rhs, st)
+		for _, l := range x.Lhs {
+			w.lhs(l, st)
+		}
+	case *ast.IncDecStmt:
+		w.lhs(x.X, st)
+	case *ast.DeclStmt:
+		if gd, ok := x.Decl.(*ast.GenDecl); ok {
+			for _, sp := range gd.Specs {
+				if vs, ok := sp.(*ast.ValueSpec); ok {
+					w.exprs(vs.Values, st)
+				}
+			}
+		}
+	case *ast.SendStmt:
+		w.expr(x.Chan, st)
+		w.expr(x.Value, st)
+	case *ast.GoStmt:
+		w.n.goPos = append(w.n.goPos, x.Pos())
+		w.exprs(x.Call.Args, st)
+		if lit, ok := ast.Unparen(x.Call.Fun).(*ast.FuncLit); ok {
+			ln := w.newLitNode(lit, kGo)
+			analyseBody(w.t, ln, w.info, w.fset)
+		} else {
+			// go f(...): a thread whose body is that call
+			ln := &node{kind: kGo, pos: x.Pos(), entry: lockset{}, ordinal: w.t.nGo, name: fmt.Sprintf("%s$go%d", w.n.name, w.t.nGo)}
+			w.t.nGo++
+			w.t.nodes = append(w.t.nodes, ln)
+			sub := &walker{t: w.t, n: ln, info: w.info, fset: w.fset}
+			c2 := *x.Call
+			c2.Args = nil
+			sub.call(&c2, lockset{}, &frame{deferred: lockset{}})
+		}
+	case *ast.DeferStmt:
+		if is, idx, name := w.lockOp(x.Call); is {
+			w.doLockOp(x.Call, idx, name, st, fr, true)
+			return false
+		}
+		if lit, ok := ast.Unparen(x.Call.Fun).(*ast.FuncLit); ok {
+			w.exprs(x.Call.Args, st)
+			if w.loopDepth > 0 {
+				// a deferred literal in a loop that touches locks cannot be placed
+				pre := len(w.n.acq)
+				w.inlineLit(lit, lockset{}, fr, true)
+				if len(w.n.acq) != pre {
+					w.unknown(x.Pos(), "defer of a locking literal in a loop")
+				}
+				return false
+			}
+			w.inlineLit(lit, lockset{}, fr, true)
+			return false
+		}
+		// deferred ordinary call: runs at exit with unknown locks -> nothing held
+		w.call(x.Call, lockset{}, fr)
+	case *ast.ReturnStmt:
+		w.exprs(x.Results, st)
+		return true
+	case *ast.BranchStmt:
+		if x.Tok == token.GOTO {
+			w.unknown(x.Pos(), "goto")
+		}
+		if x.Tok == token.FALLTHROUGH {
+			return false
+		}
+		w.branch = append(w.branch, st.copy())
+		return true
+	case *ast.BlockStmt:
+		_, t := w.nested(x.List, st, fr)
+		return t
+	case *ast.LabeledStmt:
+		return w.stmt(x.Stmt, st, fr)
+	case *ast.IfStmt:
+		w.stmt(x.Init, st, fr)
+		w.expr(x.Cond, st)
+		var outs []lockset
+		o1, t1 := w.nested(x.Body.List, st.copy(), fr)
+		if !t1 {
+			outs = append(outs, o1)
+		}
+		if x.Else != nil {
+			o2 := st.copy()
+			w.depth++
+			t2 := w.stmt(x.Else, o2, fr)
+			w.depth--
+			if !t2 {
+				outs = append(outs, o2)
+			}
+			if t1 && t2 {
+				return true
+			}
+		} else {
+			outs = append(outs, st.copy())
+		}
+		w.mergeInto(outs, st)
+	case *ast.ForStmt:
+		w.stmt(x.Init, st, fr)
+		w.expr(x.Cond, st)
+		if x.Post != nil {
+			w.loopDepth++
+			w.stmt(x.Post, st.copy(), fr)
+			w.loopDepth--
+		}
+		w.loop(x.Body, st, fr)
+	case *ast.RangeStmt:
+		w.expr(x.X, st)
+		if x.Tok == token.ASSIGN {
+			if x.Key != nil {
+				w.lhs(x.Key, st)
+			}
+			if x.Value != nil {
+				w.lhs(x.Value, st)
+			}
+		}
+		w.loop(x.Body, st, fr)
+	case *ast.SwitchStmt, *ast.TypeSwitchStmt, *ast.SelectStmt:
+		var body *ast.BlockStmt
+		hasDefault := false
+		switch y := x.(type) {
+		case *ast.SwitchStmt:
+			w.stmt(y.Init, st, fr)
+			w.expr(y.Tag, st)
+			body = y.Body
+		case *ast.TypeSwitchStmt:
+			w.stmt(y.Init, st, fr)
+			w.stmt(y.Assign, st, fr)
+			body = y.Body
+		case *ast.SelectStmt:
+			body = y.Body
+			hasDefault = true // one of the clauses always runs
+		}
+		saved := w.branch
+		w.branch = nil
+		var outs []lockset
+		for _, cl := range body.List {
+			cs := st.copy()
+			var list []ast.Stmt
+			switch c := cl.(type) {
+			case *ast.CaseClause:
+				if c.List == nil {
+					hasDefault = true
+				}
+				w.exprs(c.List, cs)
+				list = c.Body
+			case *ast.CommClause:
+				w.depth++
+				w.stmt(c.Comm, cs, fr)
+				w.depth--
+				list = c.Body
+			}
+			o, t := w.nested(list, cs, fr)
+			if !t {
+				outs = append(outs, o)
+			}
+		}
+		// break / continue inside the clauses: break leaves the switch, continue concerns the
+		// enclosing loop; both are merged here and handed up (conservative).
+		inner := w.branch
+		w.branch = append(saved, inner...)
+		outs = append(outs, inner...)
+		if !hasDefault || len(body.List) == 0 {
+			outs = append(outs, st.copy())
+		}
+		if len(outs) == 0 {
+			return true
+		}
+		w.mergeInto(outs, st)
+	}
+	return false
+}
+
+func analyseBody(t *target, n *node, info *types.Info, fset *token.FileSet) {
+	if n.body == nil {
+		return
+	}
+	w := &walker{t: t, n: n, info: info, fset: fset}
+	fr := &frame{deferred: lockset{}}
+	w.block(n.body.List, lockset{}, fr)
+}
+
+func (t *target) build(p *packages.Package) {
+	t.pkg = p
+	obj := p.Types.Scope().Lookup(t.typeName)
+	if obj == nil {
+		fmt.Fprintf(os.Stderr, "T5: type %s not found in %s\n", t.typeName, p.PkgPath)
+		os.Exit(2)
+	}
+	t.named = obj.Type().(*types.Named)
+	t.st = t.named.Underlying().(*types.Struct)
+	t.fieldIdx = map[*types.Var]int{}
+	for i := 0; i < t.st.NumFields(); i++ {
+		f := t.st.Field(i)
+		t.fieldIdx[f] = i
+		s, m := isSyncType(f.Type())
+		t.sync = append(t.sync, s)
+		t.mutex = append(t.mutex, m)
+	}
+	t.byFunc = map[*types.Func]*node{}
+	type fd struct {
+		d    *ast.FuncDecl
+		file string
+	}
+	var decls []fd
+	for _, f := range p.Syntax {
+		name := filepath.Base(p.Fset.Position(f.Pos()).Filename)
+		if strings.HasPrefix(name, "verif_") || strings.HasSuffix(name, "_test.go") {
+			continue
+		}
+		for _, d := range f.Decls {
+			if d, ok := d.(*ast.FuncDecl); ok && d.Body != nil {
+				decls = append(decls, fd{d, name})
+			}
+		}
+	}
+	sort.Slice(decls, func(i, j int) bool {
+		if decls[i].file != decls[j].file {
+			return decls[i].file < decls[j].file
+		}
+		return decls[i].d.Pos() < decls[j].d.Pos()
+	})
+	for _, d := range decls {
+		fn := p.TypesInfo.Defs[d.d.Name].(*types.Func)
+		name := fn.Name()
+		if sig := fn.Type().(*types.Signature); sig.Recv() != nil {
+			rt := sig.Recv().Type()
+			if pt, ok := rt.(*types.Pointer); ok {
+				rt = pt.Elem()
+			}
+			if nt, ok := rt.(*types.Named); ok && nt.Obj() != t.named.Obj() {
+				name = nt.Obj().Name() + "." + name
+			}
+		}
+		n := &node{name: name, kind: kDecl, fn: fn, body: d.d.Body, pos: d.d.Pos(), exported: fn.Exported(), entry: lockset{}}
+		t.nodes = append(t.nodes, n)
+		t.byFunc[fn] = n
+	}
+	declNodes := append([]*node{}, t.nodes...)
+	for _, n := range declNodes {
+		analyseBody(t, n, p.TypesInfo, p.Fset)
+	}
+}
+
+func (t *target) solve() {
+	// who is called statically
+	called := map[*node]bool{}
+	for _, n := range t.nodes {
+		for _, c := range n.calls {
+			called[t.byFunc[c.callee]] = true
+		}
+	}
+	isRoot := func(n *node) bool {
+		return n.kind != kDecl || n.exported || n.escaped || !called[n]
+	}
+	// entry locksets: descending fixpoint
+	top := lockset{}
+	for i, m := range t.mutex {
+		if m {
+			top[i] = modeW
+		}
+	}
+	for _, n := range t.nodes {
+		if isRoot(n) {
+			n.entry = lockset{}
+		} else {
+			n.entry = top.copy()
+		}
+	}
+	for changed := true; changed; {
+		changed = false
+		for _, n := range t.nodes {
+			if isRoot(n) {
+				continue
+			}
+			var acc lockset
+			for _, m := range t.nodes {
+				for _, c := range m.calls {
+					if t.byFunc[c.callee] != n {
+						continue
+					}
+					h := join(m.entry, c.locks)
+					if acc == nil {
+						acc = h
+					} else {
+						acc = meet(acc, h)
+					}
+				}
+			}
+			if acc == nil {
+				acc = lockset{}
+			}
+			if !eqls(acc, n.entry) {
+				n.entry = acc
+				changed = true
+			}
+		}
+	}
+	// spawn positions (constructor phase)
+	spawns := map[*node]bool{}
+	for _, n := range t.nodes {
+		if len(n.goPos) > 0 {
+			spawns[n] = true
+		}
+	}
+	for changed := true; changed; {
+		changed = false
+		for _, n := range t.nodes {
+			if spawns[n] {
+				continue
+			}
+			for _, c := range n.calls {
+				if spawns[t.byFunc[c.callee]] {
+					spawns[n] = true
+					changed = true
+				}
+			}
+		}
+	}
+	for _, n := range t.nodes {
+		n.spawnPos = token.NoPos
+		for _, p := range n.goPos {
+			if n.spawnPos == token.NoPos || p < n.spawnPos {
+				n.spawnPos = p
+			}
+		}
+		for _, c := range n.calls {
+			if spawns[t.byFunc[c.callee]] && (n.spawnPos == token.NoPos || c.pos < n.spawnPos) {
+				n.spawnPos = c.pos
+			}
+		}
+	}
+	// roots and reachability
+	for _, n := range t.nodes {
+		n.roots = map[string]string{}
+	}
+	reach := func(start *node, term, key string) {
+		seen := map[*node]bool{}
+		todo := []*node{start}
+		for len(todo) > 0 {
+			x := todo[len(todo)-1]
+			todo = todo[:len(todo)-1]
+			if seen[x] {
+				continue
+			}
+			seen[x] = true
+			x.roots[term] = key
+			for _, c := range x.calls {
+				todo = append(todo, t.byFunc[c.callee])
+			}
+		}
+	}
+	for _, n := range t.nodes {
+		switch n.kind {
+		case kDecl:
+			if n.exported || !called[n] {
+				reach(n, fmt.Sprintf("RApi %q", n.name), "0"+n.name)
+			}
+			if n.escaped {
+				reach(n, fmt.Sprintf("RFunc %q", n.name), "1"+n.name)
+			}
+		case kGo:
+			reach(n, fmt.Sprintf("RGo %d %q", n.ordinal, n.name), fmt.Sprintf("2%04d", n.ordinal))
+		case kTimer:
+			reach(n, fmt.Sprintf("RTimer %d %q", n.ordinal, n.name), fmt.Sprintf("3%04d", n.ordinal))
+		case kCallback:
+			reach(n, fmt.Sprintf("RCallback %d %q", n.ordinal, n.name), fmt.Sprintf("4%04d", n.ordinal))
+		}
+	}
+}
+
+func coqLocks(l lockset) string {
+	keys := []int{}
+	for k := range l {
+		keys = append(keys, k)
+	}
+	sort.Ints(keys)
+	parts := []string{}
+	for _, k := range keys {
+		m := "LW"
+		if l[k] == modeR {
+			m = "LR"
+		}
+		parts = append(parts, fmt.Sprintf("(%d, %s)", k, m))
+	}
+	return "[" + strings.Join(parts, "; ") + "]"
+}
+
+func coqBool(b bool) string {
+	if b {
+		return "true"
+	}
+	return "false"
+}
+
+func (t *target) emit(fset *token.FileSet) {
+	fmt.Printf("\n(* ---- %s (%s) ---- *)\n", t.typeName, t.pkgPath)
+	fmt.Printf("Definition %s_fields : list field := [\n", t.short)
+	for i := 0; i < t.st.NumFields(); i++ {
+		sep := ";"
+		if i == t.st.NumFields()-1 {
+			sep = ""
+		}
+		fmt.Printf("  MkField %d %q %s%s\n", i, t.st.Field(i).Name(), coqBool(t.sync[i]), sep)
+	}
+	fmt.Println("].")
+	for i := 0; i < t.st.NumFields(); i++ {
+		fmt.Printf("Definition %s_f_%s : nat := %d.\n", t.short, t.st.Field(i).Name(), i)
+	}
+	// which nodes matter transitively (touch fields or take locks)
+	relevant := map[*node]bool{}
+	acquires := map[*node]map[int]bool{}
+	for _, n := range t.nodes {
+		acquires[n] = map[int]bool{}
+		for _, a := range n.acq {
+			acquires[n][a.mutex] = true
+		}
+		if len(n.accesses) > 0 || len(n.acq) > 0 {
+			relevant[n] = true
+		}
+	}
+	for changed := true; changed; {
+		changed = false
+		for _, n := range t.nodes {
+			for _, c := range n.calls {
+				cn := t.byFunc[c.callee]
+				if relevant[cn] && !relevant[n] {
+					relevant[n] = true
+					changed = true
+				}
+				for m := range acquires[cn] {
+					if !acquires[n][m] {
+						acquires[n][m] = true
+						changed = true
+					}
+				}
+			}
+		}
+	}
+	var rows []string
+	for _, n := range t.nodes {
+		var rts []string
+		type kv struct{ term, key string }
+		var ks []kv
+		for term, key := range n.roots {
+			ks = append(ks, kv{term, key})
+		}
+		sort.Slice(ks, func(i, j int) bool { return ks[i].key < ks[j].key })
+		for _, k := range ks {
+			rts = append(rts, k.term)
+		}
+		for _, a := range n.accesses {
+			phase := "PRun"
+			if n.isCtor && (n.spawnPos == token.NoPos || a.pos < n.spawnPos) {
+				phase = "PInit"
+			}
+			p := fset.Position(a.pos)
+			pos := fmt.Sprintf("%s:%d", filepath.Base(p.Filename), p.Line)
+			if !a.known {
+				pos += " " + a.note
+				phase = "PRun"
+			}
+			fname := t.st.Field(a.field).Name()
+			if !a.known {
+				fname = "?"
+			}
+			rows = append(rows, fmt.Sprintf("  MkAcc %q %d %q %s %s %s %s %s [%s] %q",
+				n.name, a.field, fname, coqBool(a.write), coqLocks(join(n.entry, a.locks)), coqBool(a.atomic),
+				phase, coqBool(a.known), strings.Join(rts, "; "), pos))
+		}
+	}
+	fmt.Printf("Definition %s_accesses : list access := [\n%s\n].\n", t.short, strings.Join(rows, ";\n"))
+	var ms []string
+	for _, n := range t.nodes {
+		if !relevant[n] {
+			continue
+		}
+		var acq []string
+		count := map[int]int{}
+		topOnly := map[int]bool{}
+		mode := map[int]lmode{}
+		for _, a := range n.acq {
+			m := "LW"
+			if a.mode == modeR {
+				m = "LR"
+			}
+			acq = append(acq, fmt.Sprintf("(%d, %s, %s)", a.mutex, m, coqBool(a.top)))
+			count[a.mutex]++
+			topOnly[a.mutex] = a.top
+			mode[a.mutex] = a.mode
+		}
+		whole := lockset{}
+		for m, c := range count {
+			if c != 1 || !topOnly[m] {
+				continue
+			}
+			ok := true
+			for _, a := range n.accesses {
+				if !a.known {
+					ok = false
+				}
+				if n.isCtor && (n.spawnPos == token.NoPos || a.pos < n.spawnPos) {
+					continue
+				}
+				if _, h := a.locks[m]; !h {
+					ok = false
+				}
+			}
+			for _, c := range n.calls {
+				if relevant[t.byFunc[c.callee]] {
+					if _, h := c.locks[m]; !h {
+						ok = false
+					}
+				}
+			}
+			if ok {
+				whole[m] = mode[m]
+			}
+		}
+		comp := map[int]bool{}
+		for _, c := range n.calls {
+			held := join(n.entry, c.locks)
+			for m := range acquires[t.byFunc[c.callee]] {
+				if _, h := held[m]; !h {
+					comp[m] = true
+				}
+			}
+		}
+		var compL []string
+		for i := range t.mutex {
+			if comp[i] {
+				compL = append(compL, fmt.Sprint(i))
+			}
+		}
+		touches := false
+		for _, a := range n.accesses {
+			if !(n.isCtor && (n.spawnPos == token.NoPos || a.pos < n.spawnPos)) {
+				touches = true
+			}
+		}
+		ms = append(ms, fmt.Sprintf("  MkMeth %q %s [%s] %s %s [%s] %s",
+			n.name, coqBool(n.exported), strings.Join(acq, "; "), coqLocks(whole), coqLocks(n.entry),
+			strings.Join(compL, "; "), coqBool(touches)))
+	}
+	fmt.Printf("Definition %s_methods : list meth := [\n%s\n].\n", t.short, strings.Join(ms, ";\n"))
+}
+
+func genLocks(ps []*packages.Package) {
+	fmt.Println("(* GENERATED by tools/cmd/gensyntax (T5) from the repository's type-checked syntax. Do not edit. *)")
+	fmt.Println("From Coq Require Import List String.")
+	fmt.Println("From Verif.Model Require Import LockTab.")
+	fmt.Println("Import ListNotations.")
+	fmt.Println("Local Open Scope string_scope.")
+	for _, lt := range lockTargets {
+		var pkg *packages.Package
+		for _, p := range ps {
+			if p.PkgPath == lt.pkg {
+				pkg = p
+			}
+		}
+		if pkg == nil {
+			fmt.Fprintf(os.Stderr, "T5: package %s not loaded\n", lt.pkg)
+			os.Exit(2)
+		}
+		t := &target{typeName: lt.typ, short: lt.short, pkgPath: lt.pkg}
+		t.build(pkg)
+		t.solve()
+		t.emit(pkg.Fset)
+	}
+}
